@@ -2,13 +2,13 @@ package world
 
 import (
 	"context"
-	"encoding/json"
-	"strings"
 	"crypto/aes"
 	"crypto/cipher"
 	"encoding/base64"
+	"encoding/json"
 	"errors"
 	"fmt"
+	"strings"
 	"time"
 
 	"github.com/godaddy/asherah/go/appencryption"
@@ -34,6 +34,9 @@ type OpRec struct {
 	FaultDesc []string
 	Err       error
 	Panic     string
+	// Cancel cancels the context the operation was invoked with (set by the harness).
+	Cancel    func()
+	Cancelled bool
 }
 
 // CallRec is one call at an external seam.
@@ -201,6 +204,17 @@ func (w *World) enter(class string, proc int, id string, created int64) (*CallRe
 	w.Calls = append(w.Calls, c)
 	f := w.decide(class, proc, idx, op)
 	c.Fault = f
+	// the caller's context may be cancelled while a metastore/KMS call is in flight (the call itself
+	// still completes): nothing in flight may be left behind because of it
+	if f == FNone && op != nil && op.Cancel != nil && !op.Cancelled && w.Faults.Kinds["ctx.cancel"] && !w.Faults.Off &&
+		(class == "kms.dec" || class == "kms.enc" || class == "ms.load" || class == "ms.latest" || class == "ms.store") && w.T.Chance(1, 10, "ctx.cancel?") {
+		op.Cancelled = true
+		op.Faulted++
+		op.FaultDesc = append(op.FaultDesc, fmt.Sprintf("%s#%d:ctx-cancelled", class, idx))
+		w.Faults.Fired["ctx.cancel"]++
+		w.S.Logf("ctx cancelled during %s", class)
+		op.Cancel()
+	}
 	if lat := w.latency(class); lat > 0 {
 		w.S.Sleep(lat)
 	}
